@@ -419,12 +419,28 @@ def _pack_gating (ctx, repo, lof):
   FW = {'nw_tos': 'OFPFW_NW_TOS', 'nw_proto': 'OFPFW_NW_PROTO', 'nw_src': 'OFPFW_NW_SRC_MASK', 'nw_dst': 'OFPFW_NW_DST_MASK', 'tp_src': 'OFPFW_TP_SRC', 'tp_dst': 'OFPFW_TP_DST'}
   g = q.cfg_of(w)
   per_type = {}
-  for r in [n for n in g.nodes if n.kind == 'return' and n.ast.value is not None]:
-    ts = [q.try_int(rr) for l, o, rr, b in q.guard_facts(g, r) if rr is not None and norm(l) == 'self.dl_type' and o == '==']
-    for t in ts:
-      if t is None: continue
-      cleared = _bits_in(None, None, None, r.ast.value)
-      per_type.setdefault(t, []).append(cleared)
+  # decided by evaluation: for each ethertype the function distinguishes (and one it does not), which wildcard bits does
+  # _wire_wildcards clear when given all ones?  (works for per-branch returns and for a shared helper alike)
+  types_ = set()
+  for x in ast.walk(w.node):
+    if isinstance(x, ast.Compare) and 'dl_type' in norm(x.left) and isinstance(x.ops[0], (ast.Eq, ast.NotEq)):
+      k = q.try_int(x.comparators[0])
+      if k is None:
+        k = repo.try_const(lof, x.comparators[0], m)
+      if isinstance(k, int): types_.add(k)
+  allw = ofreg.const_value(repo, lof, 'OFPFW_ALL')
+  wparam = w.params[1] if len(w.params) > 1 else 'wildcards'
+  for t in sorted(types_):
+    for proto in (6, 47):
+      for r in [n_ for n_ in g.nodes if n_.kind == 'return' and n_.ast.value is not None]:
+        vals = q.values_at(repo, lof, g, q.Env({'self.dl_type': t, 'self.nw_proto': proto, wparam: allw}), r, r.ast.value, m)
+        for v_ in vals:
+          if not isinstance(v_, int) or isinstance(v_, bool): continue
+          cleared = set()
+          for fld_, bit_ in FW.items():
+            bv = ofreg.const_value(repo, lof, bit_)
+            if isinstance(bv, int) and (v_ & bv) == 0: cleared.add(bit_)
+          per_type.setdefault(t, []).append(cleared)
   n = 0
   for t, sets in per_type.items():
     always_cleared = set.intersection(*sets) if sets else set()
